@@ -4,6 +4,7 @@ import (
 	"fmt"
 	"go/token"
 	"net/http"
+	"reflect"
 	"strings"
 
 	"golang.org/x/tools/go/ssa"
@@ -330,6 +331,44 @@ func runC03(c *Ctx) {
 				okOv := guardedBy(sc, pc, factBool(isOver, false))
 				c.obI("R03.5", sc, "stored-only-if-parsed-and-in-range", okErr && okOv, "a parsed number is stored only when the parse succeeded and target."+strings.TrimPrefix(n.over, "(reflect.Value).")+" reported no overflow for the declared width", fmt.Sprintf("err==nil guard:%v overflow guard:%v", okErr, okOv))
 			}
+		}
+	}
+	// a literal is refused as "not of the declared type" only because its conversion failed or overflowed: InvalidType is
+	// never pronounced on the TEXT itself (its length, a prefix, a character class) — the parser decides what is a valid
+	// in-range literal ("-9223372036854775808" has twenty characters)
+	{
+		convFailed := func(cond ssa.Value, branch bool) bool {
+			cnd, b := stripNot(cond, branch)
+			if bo, ok := cnd.(*ssa.BinOp); ok && (bo.Op == token.NEQ || bo.Op == token.EQL) {
+				var side ssa.Value
+				if isNilConst(bo.Y) {
+					side = bo.X
+				} else if isNilConst(bo.X) {
+					side = bo.Y
+				}
+				if side != nil && typeStr(side.Type()) == "error" {
+					isCallErr, _ := allOrigins(side, func(o Origin) bool { return asCall(o.V) != nil })
+					return isCallErr && (bo.Op == token.NEQ) == b
+				}
+			}
+			if call := asCall(cnd); call != nil && strings.HasPrefix(calleeName(&call.Call), "(reflect.Value).Overflow") {
+				return b
+			}
+			return false
+		}
+		for _, ci := range callsIn(sf, "github.com/go-openapi/errors.InvalidType") {
+			if ci.Parent() != sf {
+				continue
+			}
+			// (the kind switch's default — a target of a kind no parameter type maps to — is not about the text)
+			isKind := func(v ssa.Value) bool {
+				kc := asCall(v)
+				return kc != nil && calleeName(&kc.Call) == "(reflect.Value).Kind"
+			}
+			if guardedBy(ci, nil, factEqInt(isKind, int64(reflect.Ptr), false)) && guardedBy(ci, nil, factEqInt(isKind, int64(reflect.String), false)) {
+				continue
+			}
+			c.obI("R03.5", ci, "invalid-type-only-after-a-failed-conversion", guardedBy(ci, nil, convFailed), "errors.InvalidType is returned only when a conversion (strconv, base64, ConvertBool, a text unmarshaler) failed or the value overflows the declared width", "InvalidType is reachable without any conversion having failed: the text is refused on grounds of its own (a valid literal of that shape gets 422)")
 		}
 	}
 	checkErrorsReturned(c, "R03.5", sf, 0, func(call *ssa.Call) bool {
@@ -671,6 +710,18 @@ func runC03(c *Ctx) {
 			n++
 			ok, bad := allOrigins(a[0], oCall(-1, "reflect.MakeSlice"), oCall(-1, "reflect.Zero"), oCall(-1, "reflect.ValueOf"))
 			c.obI("R03.7", ci, "stores-the-whole-slice", ok, "the target receives the slice of len(data) items as made (or the default), not a part of it", "origin "+describeOrigin(bad))
+			// the declared default stands in whenever NO ITEMS were obtained (absent, or present but empty) — the test is on
+			// the number of items, not on the presence of the key
+			if isDef, _ := allOrigins(a[0], oCall(-1, "reflect.Zero"), oCall(-1, "reflect.ValueOf")); isDef {
+				noItems := factEqInt(func(v ssa.Value) bool {
+					okL, _ := allOrigins(v, oCallWhere(-1, "builtin len", func(lc *ssa.Call) bool {
+						okk, _ := allOrigins(lc.Call.Args[0], oIsValue(data))
+						return okk
+					}))
+					return okL
+				}, 0, true)
+				c.obI("R03.7", ci, "default-applies-when-no-items", guardedBy(ci, nil, noItems), "the array default is stored exactly when len(data) == 0", "the default is applied under another condition than `no items` (a parameter sent with an empty value binds an empty array instead of its default)")
+			}
 		}
 		c.obRF("R03.7", sf, "sets-target", n >= 1, "setSliceFieldValue stores into its target", "")
 		for _, ci := range mk {
